@@ -7,3 +7,20 @@ for p in sorted(glob.glob("/verif/seeded/*/meta.json")):
     m = json.load(open(p))
     cell = lambda x: (x if isinstance(x, str) else "; ".join(x)).replace("|", "/").replace("\n", " ") or "—"
     print(f"| {m['id']} | {cell(m['needs_to_manifest'])} | {cell(m['caught_by'])} | {cell(m['missed_by'])} |")
+
+def write_into_design():
+    import io, contextlib
+    p = "/verif/DESIGN.md"
+    s = open(p).read()
+    a = s.index("<!-- seeded-table-begin -->") + len("<!-- seeded-table-begin -->\n")
+    b = s.index("<!-- seeded-table-end -->")
+    rows = ["| seeded change | needs | caught by | missed by |", "|---|---|---|---|"]
+    for q in sorted(glob.glob("/verif/seeded/*/meta.json")):
+        m = json.load(open(q))
+        cell = lambda x: (x if isinstance(x, str) else "; ".join(x)).replace("|", "/").replace("\n", " ") or "—"
+        rows.append(f"| {m['id']} | {cell(m['needs_to_manifest'])} | {cell(m['caught_by'])} | {cell(m['missed_by'])} |")
+    open(p, "w").write(s[:a] + "\n".join(rows) + "\n" + s[b:])
+
+import sys
+if "--write" in sys.argv:
+    write_into_design()
